@@ -10,7 +10,7 @@ from vlib import core  # noqa: E402
 
 
 def checks():
-    from vlib import fam_import, fam_chroot, fam_frontend, fam_compile, fam_seq, fam_eval
+    from vlib import fam_import, fam_chroot, fam_frontend, fam_compile, fam_seq, fam_eval, fam_ints
     table = {
         "C05": fam_import.check_c05,
         "C06": fam_import.check_c06,
@@ -22,6 +22,7 @@ def checks():
         "C01": fam_compile.check_c01,
         "C13": fam_seq.check_c13,
         "C10": fam_eval.check_c10,
+        "C14": fam_ints.check_c14,
     }
     for mod, names in OPTIONAL:
         try:
